@@ -466,3 +466,54 @@ func VerifMountDrop() {
 		rt.Reach("mount.drop.replica")
 	}
 }
+
+// VerifMountFlush: a connection holding database-file and shared-memory locks
+// goes away; the kernel flushes its two handles in either order. A handle's
+// flush releases that file's locks and only those; after both flushes nothing
+// of the connection is left and LiteFS can take its internal write lock.
+func VerifMountFlush() {
+	ctx := context.Background()
+	fsys, _, db, _ := verifMount(1, true)
+	dn := newDatabaseNode(fsys, db)
+	f, err := db.OpenDatabase(ctx)
+	rt.Check(err == nil, "open")
+	dh := newDatabaseHandle(dn, f)
+	_, shh, err := fsys.root.Create(ctx, &fuse.CreateRequest{Name: "db-shm"}, &fuse.CreateResponse{})
+	rt.Check(err == nil, "mount: shm create")
+	sh := shh.(*SHMHandle)
+	const owner = fuse.LockOwner(7)
+	rt.Check(dh.Lock(ctx, verifLockReq(owner, litefs.SHARED_FIRST, litefs.SHARED_FIRST+litefs.SHARED_SIZE-1, fuse.LockRead)) == nil, "SHARED")
+	rt.Check(sh.Lock(ctx, verifLockReq(owner, litefs.WAL_READ_LOCK1, litefs.WAL_READ_LOCK1, fuse.LockRead)) == nil, "READ1")
+	writer := rt.Choose("holds.write", 2) == 1
+	if writer {
+		rt.Check(sh.Lock(ctx, verifLockReq(owner, litefs.WAL_WRITE_LOCK, litefs.WAL_WRITE_LOCK, fuse.LockWrite)) == nil, "WRITE")
+	}
+	dbFirst := rt.Choose("flush.database.first", 2) == 1
+	if dbFirst {
+		rt.Check(dh.Flush(ctx, &fuse.FlushRequest{LockOwner: owner}) == nil, "flush database handle")
+		// the shared-memory locks are still the connection's
+		rt.Check(sh.Lock(ctx, verifLockReq(8, litefs.WAL_READ_LOCK1, litefs.WAL_READ_LOCK1, fuse.LockWrite)) == syscall.EAGAIN, "mount: flushing the database handle leaves the connection's shared-memory locks in place")
+		rt.Check(sh.Flush(ctx, &fuse.FlushRequest{LockOwner: owner}) == nil, "flush shm handle")
+	} else {
+		rt.Check(sh.Flush(ctx, &fuse.FlushRequest{LockOwner: owner}) == nil, "flush shm handle")
+		rt.Check(dh.Lock(ctx, verifLockReq(8, litefs.SHARED_FIRST, litefs.SHARED_FIRST+litefs.SHARED_SIZE-1, fuse.LockWrite)) == syscall.EAGAIN, "mount: flushing the shm handle leaves the connection's database locks in place")
+		rt.Check(dh.Flush(ctx, &fuse.FlushRequest{LockOwner: owner}) == nil, "flush database handle")
+	}
+	// nothing of the connection is left
+	rt.Check(sh.Lock(ctx, verifLockReq(8, litefs.WAL_READ_LOCK1, litefs.WAL_READ_LOCK1, fuse.LockWrite)) == nil, "mount: after both flushes READ1 is free")
+	rt.Check(sh.Lock(ctx, verifLockReq(8, litefs.WAL_WRITE_LOCK, litefs.WAL_WRITE_LOCK, fuse.LockWrite)) == nil, "mount: after both flushes WRITE is free")
+	rt.Check(dh.Lock(ctx, verifLockReq(8, litefs.SHARED_FIRST, litefs.SHARED_FIRST+litefs.SHARED_SIZE-1, fuse.LockWrite)) == nil, "mount: after both flushes the database range is free")
+	rt.Check(sh.Unlock(ctx, verifUnlockReq(8, 0, ^uint64(0))) == nil && dh.Unlock(ctx, verifUnlockReq(8, 0, ^uint64(0))) == nil, "unlock")
+	gs := db.TryAcquireWriteLock()
+	rt.Check(gs != nil, "mount: LiteFS can take its internal write lock once the connection is gone")
+	if gs != nil {
+		gs.Unlock()
+	}
+	// and a WAL write by somebody who holds no lock is refused (no orphaned WRITE lock lends its authority)
+	_, whh, werr := fsys.root.Create(ctx, &fuse.CreateRequest{Name: "db-wal"}, &fuse.CreateResponse{})
+	if werr == nil {
+		wresp := &fuse.WriteResponse{}
+		rt.Check(whh.(*WALHandle).Write(ctx, &fuse.WriteRequest{Data: make([]byte, litefs.WALHeaderSize), Offset: 0, LockOwner: 9}, wresp) != nil, "mount: a WAL write without the WRITE lock is refused")
+	}
+	rt.Reach("mount.flush")
+}
